@@ -385,8 +385,9 @@ Proof.
   split; [apply wf_append, wf_append, wf_nil|]. split; [repeat constructor|]. vm_compute. split; reflexivity.
 Qed.
 Example C07_file_dict_name_inj_example :
-  Forall no_pct (components p_a_b) /\ components p_a_b = [[97%N]; [98%N]] /\ x_name p_a_b = [97; 37; 98; 37]%N.
-Proof. split; [|split]; [|reflexivity|reflexivity]. vm_compute. repeat constructor; intros [H|[]]; discriminate. Qed.
+  Forall no_pct (components p_a_b) /\ components p_a_b = [[97%N]; [98%N]] /\ x_name p_a_b = Some [97; 37; 98; 37]%N /\
+  x_name [47%N] = None.
+Proof. split; [|split; [|split]]; [|reflexivity|reflexivity|reflexivity]. vm_compute. repeat constructor; intros [H|[]]; discriminate. Qed.
 (* the crash decision function on observations: old + partial sibling, new without sibling are possible;
    a truncated dictionary, or the new dictionary next to a sibling, are not *)
 Example C07_crash_states_example :
